@@ -659,6 +659,7 @@ def cacheStep (st : DState) (op : String) (f : List Text) : Option (DState × St
   match op, f with
   | "c.reset", [ip, interval] =>
     some ({ db := {}, cfg := ⟨intOfText interval, ip == ['T']⟩, now := 0, schemaDone := false }, "ok")
+  | "c.configure", [_, interval, ip] => some ({ st with cfg := ⟨intOfText interval, ip == ['T']⟩ }, "ok")
   | "c.open", [_] => some ({ st with schemaDone := true, shape := Migrate.openDb st.shape }, "ok")
   | "m.make", hfs :: hnf :: hdt :: uv :: rows =>
     let (a, b, c) := (hfs == ['T'], hnf == ['T'], hdt == ['T'])
